@@ -85,6 +85,10 @@ def tp_grids(rng, nP, nT):
             T[i] = T[i - 1] + 5 + rng.uniform(0, 50)
     lo = rng.uniform(-3, 2)
     lp = lo + np.concatenate([[0.0], np.cumsum(rng.uniform(0.05, 2.5, nP - 1))])
+    if rng.random() < 0.25:
+        Ti = np.round(T).astype(np.int64)        # a temperature axis typed as whole numbers: integer dtype in the file
+        if np.all(np.diff(Ti) > 0):
+            T = Ti
     return T, 10 ** lp
 
 
@@ -97,7 +101,7 @@ def xsec_table(rng, nP, nT, nwn, lo=-30.0, hi=-16.0):
 # ----------------------------------------------------------- cross-sections
 def write_xsec_pickle(path, wn, T, P_pa, xsec_cm2):
     with open(path, 'wb') as fh:
-        pickle.dump({'wno': np.array(wn, dtype=float), 't': np.array(T, dtype=float),
+        pickle.dump({'wno': np.array(wn, dtype=float), 't': np.array(T),
                      'p': np.array(P_pa, dtype=float) / 1e5, 'xsecarr': np.array(xsec_cm2, dtype=float)}, fh)
 
 
@@ -105,7 +109,7 @@ def write_xsec_hdf5(path, mol_name, wn, T, P_pa, xsec_cm2, unit, name_kind='str'
     import h5py
     with h5py.File(path, 'w') as f:
         f.create_dataset('bin_edges', data=np.array(wn, dtype=float))
-        f.create_dataset('t', data=np.array(T, dtype=float))
+        f.create_dataset('t', data=np.array(T))
         p = f.create_dataset('p', data=np.array(P_pa, dtype=float) / PA_PER_UNIT[unit])
         p.attrs['units'] = unit
         f.create_dataset('xsecarr', data=np.array(xsec_cm2, dtype=float))
@@ -201,7 +205,7 @@ def cia_physical_table(rng):
 
 def write_cia_pickle(path, wn, T, x_m5):
     with open(path, 'wb') as fh:
-        pickle.dump({'wno': np.array(wn, dtype=float), 't': np.array(T, dtype=float),
+        pickle.dump({'wno': np.array(wn, dtype=float), 't': np.array(T),
                      'xsecarr': np.array(x_m5, dtype=float)}, fh)
 
 
@@ -224,7 +228,7 @@ def write_cia_hitran(path, pair, blocks, negatives=None):
 # ----------------------------------------------------------------- k-tables
 def write_ktable_pickle(path, name, wn, T, P_pa, kcoeff_cm2, weights):
     with open(path, 'wb') as fh:
-        pickle.dump({'bin_centers': np.array(wn, dtype=float), 't': np.array(T, dtype=float),
+        pickle.dump({'bin_centers': np.array(wn, dtype=float), 't': np.array(T),
                      'p': np.array(P_pa, dtype=float) / 1e5, 'kcoeff': np.array(kcoeff_cm2, dtype=float),
                      'weights': np.array(weights, dtype=float), 'ngauss': len(weights), 'name': name,
                      'bin_edges': np.array(wn, dtype=float)}, fh)
@@ -235,7 +239,7 @@ def write_ktable_hdf5(path, wn, T, P_pa, kcoeff_cm2, weights, unit):
     with h5py.File(path, 'w') as f:
         f.create_dataset('bin_centers', data=np.array(wn, dtype=float))
         f.create_dataset('ngauss', data=len(weights))
-        f.create_dataset('t', data=np.array(T, dtype=float))
+        f.create_dataset('t', data=np.array(T))
         p = f.create_dataset('p', data=np.array(P_pa, dtype=float) / PA_PER_UNIT[unit])
         p.attrs['units'] = unit
         f.create_dataset('kcoeff', data=np.array(kcoeff_cm2, dtype=float))
